@@ -338,6 +338,9 @@ class FeedChecker(ProgMixin):
         self.piece_length = checker.piece_length
         self.paths = checker.paths
         self.pieces = checker.info["pieces"]
+        # the decoder returns text for byte strings that are valid UTF-8
+        if isinstance(self.pieces, str):
+            self.pieces = self.pieces.encode("utf-8")
         self.fileinfo = checker.fileinfo
         self.piece_map = {}
         self.index = 0
